@@ -4,6 +4,7 @@ import Driver.HT2
 import Driver.HT4
 import Driver.HGel
 import Driver.HRefl
+import Driver.HSnap
 import Clem.Model.Compose
 import Clem.Model.T2Mon
 
@@ -88,6 +89,7 @@ def parseCfg (j : Json) : R (Cfg Float) := do
          capMerge := ← fldInt j "capMerge", capSplit := ← fldInt j "capSplit", capPromo := ← fldInt j "capPromo",
          hyb := ← Driver.HT2.parseH (← fld j "hyb"), qual := ← Driver.HT2.parseQ (← fld j "qual"),
          refl := ← Driver.HRefl.parseCfg (← fld j "refl"),
+         wops := Clem.SnapFloat.fops, cv := Clem.SnapFloat.fcv, snapB := ← Driver.HSnap.decBounds j,
          sched := ← parseSched (fldD j "sched" Json.null) }
 
 def parseDelta (j : Json) : R (Clem.T4.Delta Float) := do
@@ -122,14 +124,20 @@ def parseOrc (j : Json) : R (Oracles Float) := do
   let splits ← match fldD j "splits" Json.null with
     | Json.null => pure []
     | m => arrMapM (← m.getArr?) Driver.HGel.splitOf
-  pure ⟨qs, ← fldInt j "nowUs", merges, splits⟩
+  let memEps ← match fldD j "memEps" Json.null with
+    | Json.null => pure []
+    | m => arrMapM (← m.getArr?) Driver.HT2.parseEp
+  pure ⟨qs, ← fldInt j "nowUs", merges, splits, memEps⟩
 
 def parseTurn (j : Json) : R (TurnIn Float × Oracles Float) := do
   let t : TurnIn Float :=
     { text := ← fldS j "text", turnId := ← fldInt j "turnId", dryRun := ← fldBool j "dryRun",
       ctxText := ← fldS j "ctxText", hook := ← fldBool j "hook",
       hookOps := ← arrMapM (← fldArr j "hookOps") parseOp,
-      hookDeltas := ← arrMapM (← fldArr j "hookDeltas") parseDelta }
+      hookDeltas := ← arrMapM (← fldArr j "hookDeltas") parseDelta,
+      agent := ← (match fldD j "agent" Json.null with
+        | Json.null => pure none
+        | a => do pure (some (toStr (← a.getStr?)))) }
   pure (t, ← parseOrc (← fld j "orc"))
 
 def parseVer (j : Json) : R Clem.Apply.Ver :=
@@ -142,7 +150,7 @@ def parseState (j : Json) : R (State Float) := do
   let w ← arrMapM (← fldArr j "w") (fun p => do
     let a ← p.getArr?
     pure ((toStr (← strAt a 0), toStr (← strAt a 1), toStr (← strAt a 2)), ← floatAt a 3))
-  pure ⟨w, ← parseVer (fldD j "ver" Json.null), [], [], [], none, 0⟩
+  pure ⟨w, ← parseVer (fldD j "ver" Json.null), [], [], [], none, 0, false, none, []⟩
 
 structure Req where
   w : World Float
@@ -355,6 +363,11 @@ def jTurn (echo : Json) (w : World Float) (c : Cfg Float) (t : TurnIn Float) (o 
     ("t2Ran", jBool o.t2Ran),
     ("reflCalled", jBool o.refl.called), ("reflWritten", jArr (o.refl.written.map (fun x => jStr (Driver.HRefl.ofStr x.text)))),
     ("memN", jNat o.state.memN),
+    ("mem", jArr (o.state.mem.map (fun x => jObj [("agent", jStr (Driver.HRefl.ofStr x.agent)),
+      ("turn", jStr (Driver.HRefl.ofStr x.turn)), ("slot", jNat x.slot), ("text", jStr (Driver.HRefl.ofStr x.text)),
+      ("vec", jBool x.vec)]))),
+    ("snapBody", match o.snapBody with | some b => Driver.HSnap.encJ b | none => Json.null),
+    ("gelV11", jBool o.state.gelV11),
     ("yielded", match o.yielded with | some (st, r) => jArr [jStr (stageStr st), jStr (reasonStr r)] | none => Json.null),
     ("t3Ran", jBool o.t3Ran),
     ("ops", jArr (o.ops.map jOp)),
@@ -369,12 +382,39 @@ def jTurn (echo : Json) (w : World Float) (c : Cfg Float) (t : TurnIn Float) (o 
     ("storeCalls", jArr (o.storeCalls.map (fun b => jArr (b.map jDelta)))),
     ("state", jObj [("w", jW o.state.w), ("version", jVer o.state.ver)])]
 
+/-- the records of a turn carry that turn's agent -/
+def echoFor (echo : Json) (t : TurnIn Float) : Json :=
+  match t.agent with
+  | some a => (echo.setObjVal! "agent" (jStr (Driver.HT2.ofStr a))).setObjVal! "snapName"
+      (jStr ("state_" ++ Driver.HT2.ofStr a ++ ".json"))
+  | none => echo
+
+/-- `boot` absent / null: the state is handed over already booted (`_boot_loaded` pre-set).  `{"body": b}`: a fresh
+process whose boot hook finds the snapshot body `b` (`null`: an empty directory).  `restartAt: k`: after turn `k` the
+process is thrown away; a fresh state boots from the snapshot file the first `k` turns left (`State.lastSnap`). -/
 def handle (j : Json) : R Json := do
   let r ← parseReq j
-  let h := runTurns r.w r.c r.s r.ts
+  let s0 ← match fldD j "boot" Json.null with
+    | Json.null => pure r.s
+    | b => do
+      let body ← match fldD b "body" Json.null with
+        | Json.null => pure none
+        | x => do pure (some (← Driver.HSnap.decJ x))
+      pure (bootOf r.c r.s body)
+  let (outs, fin) ← match fldD j "restartAt" Json.null with
+    | Json.null => do
+      -- (turns naming their own agent: several agents on one state; `runTurnsMA = runTurns` when none does)
+      let h := runTurnsMA r.w r.c s0 r.ts
+      pure (h.outs, h.state)
+    | kj => do
+      let k ← kj.getNat?
+      let h1 := runTurns r.w r.c s0 (r.ts.take k)
+      let s1 := bootOf r.c r.s h1.state.lastSnap
+      let h2 := runTurns r.w r.c s1 (r.ts.drop k)
+      pure (h1.outs ++ h2.outs, h2.state)
   pure (jObj [
-    ("turns", jArr ((r.ts.zip h.outs).map (fun p => jTurn r.echo r.w r.c p.1.1 p.2))),
-    ("final", jObj [("w", jW h.state.w), ("version", jVer h.state.ver)])])
+    ("turns", jArr ((r.ts.zip outs).map (fun p => jTurn (echoFor r.echo p.1.1) (wFor r.w p.1.1) r.c p.1.1 p.2))),
+    ("final", jObj [("w", jW fin.w), ("version", jVer fin.ver)])])
 
 /-! ### monitors on the REAL turn -/
 
@@ -399,6 +439,38 @@ def t4MonAll (inp : Clem.T4.Input Float) (ap : List (Clem.T4.Delta Float)) (rj :
   Clem.T4.monTopK (Clem.T4.scaled Float.sqrt inp) ap &&
   (!capsOk || Clem.T4.monPipeline 1e-9 (Clem.T4.approved Float.sqrt inp) ap)
 
+/-- `snap.fields`: the body the REAL turn wrote, against the REAL turn's own records — key order of C06_payload_keys,
+turn / agent, `version_etag` = the version after the bump as a string, `applied` = the apply record's count, `deltas`
+= T4's approved list in order, `store.weights` = the store's `.w` map after the apply, in insertion order. -/
+def monSnapFields (turnId : Int) (agent : Str) (verAfter : Int) (applied : Int)
+    (ap : List (Clem.T4.Delta Float)) (storeW : List ((Str × Str × Str) × Float)) (bnd : Clem.Snap.Bounds Float)
+    (gelRaw : Clem.Py.JV.J Float) (body : Clem.Py.JV.J Float) : Bool :=
+  let same (a b : Clem.Py.JV.J Float) : Bool := (Driver.HSnap.encJ a).compress == (Driver.HSnap.encJ b).compress
+  -- C06's writer on the REAL `state.graph` the turn left behind (`gel`/`graph` sections: sanitised edges, summary)
+  let exp := Clem.Snap.payloadKV Clem.SnapFloat.fops Clem.SnapFloat.fcv bnd
+    { turn := .int turnId, agent := .str agent, version := .null, applied := applied, deltas := .arr [],
+      store := .absent, graph := gelRaw, gel := gelRaw }
+  match body with
+  | .obj kv =>
+    kv.map (·.1) == [Clem.Snap.kTurn, Clem.Snap.kAgent, Clem.Snap.kVersionEtag, Clem.Snap.kApplied, Clem.Snap.kDeltas,
+                     Clem.Snap.kSchemaVersion, Clem.Snap.kStore, Clem.Snap.kGraphSchemaVersion, Clem.Snap.kGel,
+                     Clem.Snap.kGraph] &&
+    same (Clem.Py.JV.getD Clem.Snap.kTurn .null kv) (.int turnId) &&
+    same (Clem.Py.JV.getD Clem.Snap.kAgent .null kv) (.str agent) &&
+    same (Clem.Py.JV.getD Clem.Snap.kVersionEtag .null kv) (.str (decStr verAfter)) &&
+    same (Clem.Py.JV.getD Clem.Snap.kApplied .null kv) (.int applied) &&
+    same (Clem.Py.JV.getD Clem.Snap.kDeltas .null kv) (.arr (ap.map deltaJ)) &&
+    same (Clem.Py.JV.getD Clem.Snap.kStore .null kv) (Clem.Snap.exportStore (wToStore storeW)) &&
+    same (Clem.Py.JV.getD Clem.Snap.kGel .null kv) (Clem.Py.JV.getD Clem.Snap.kGel .null exp) &&
+    same (Clem.Py.JV.getD Clem.Snap.kGraph .null kv) (Clem.Py.JV.getD Clem.Snap.kGraph .null exp)
+  | _ => false
+
+def parseW (j : Json) : R (List ((Str × Str × Str) × Float)) := do
+  arrMapM (← j.getArr?) (fun p => do
+    let a ← p.getArr?
+    let k ← (← arrAt a 0).getArr?
+    pure ((toStr (← strAt k 0), toStr (← strAt k 1), toStr (← strAt k 2)), ← floatAt a 1))
+
 def handleMon (j : Json) : R Json := do
   let r ← parseReq j
   let which ← fldStr j "which"
@@ -407,6 +479,7 @@ def handleMon (j : Json) : R Json := do
   let (t, orc) ← match r.ts[ti]? with
     | some x => pure x
     | none => throw "turn index out of range"
+  let r : Req := { r with w := wFor r.w t, echo := echoFor r.echo t }
   let deltaIds ← strL ob "deltaIds"
   let labels := changedLabels r.w.graphs deltaIds
   match which with
@@ -445,6 +518,39 @@ def handleMon (j : Json) : R Json := do
       | Json.null => pure true
       | sj => do pure ((← sj.getBool?) == Clem.Apply.shouldSnapshot (some t.turnId) r.c.every)
     pure (jBool (if committed then va == Clem.Apply.bump (.num vb) && snapOk else va == vb))
+  | "snap.fields" =>
+    -- written iff the turn committed on the cadence; the fields restate the turn's own records
+    let committed ← fldBool ob "committed"
+    let due := committed && Clem.Apply.shouldSnapshot (some t.turnId) r.c.every
+    match fldD ob "snapBody" Json.null with
+    | Json.null => pure (jBool (!due))
+    | bj =>
+      let body ← Driver.HSnap.decJ bj
+      let ap ← arrMapM (← fldArr ob "approved") parseDelta
+      let sw ← parseW (← fld ob "storeW")
+      let gelRaw ← match fldD ob "gelRaw" Json.null with
+        | Json.null => pure Clem.Py.JV.J.null
+        | x => Driver.HSnap.decJ x
+      pure (jBool (due && monSnapFields t.turnId r.w.agent (← fldInt ob "verAfter") (← fldInt ob "applied") ap sw
+        r.c.snapB gelRaw body))
+  | "boot.load" =>
+    -- state after the boot hook = the model's load of the body that was in the directory (none: empty directory)
+    let body ← match fldD ob "bootBody" Json.null with
+      | Json.null => pure none
+      | x => do pure (some (← Driver.HSnap.decJ x))
+    let s1 := bootOf r.c r.s body
+    let sw ← parseW (← fld ob "bootW")
+    let es ← arrMapM (← fldArr ob "bootEdges") (fun p => do
+      let a ← p.getArr?
+      pure (toStr (← strAt a 0), ← floatAt a 1))
+    let mine := (Clem.Gel.edgesOf s1.gel).map (fun e => (e.key, e.w))
+    let sameE (a b : Str × Float) : Bool := a.1 == b.1 && a.2.toBits == b.2.toBits
+    let nodes : List Str ← strL ob "bootNodes"
+    let myNodes : List Str := (match s1.gel with | some g => g.nodes.map (fun n => n.id) | none => [])
+    pure (jBool (jVer s1.ver == fldD ob "bootVer" Json.null &&
+      s1.w.length == sw.length && (s1.w.zip sw).all (fun p => p.1.1 == p.2.1 && p.1.2.toBits == p.2.2.toBits) &&
+      mine.length == es.length && mine.all (fun a => es.any (sameE a)) && es.all (fun a => mine.any (sameE a)) &&
+      myNodes.length == nodes.length && myNodes.all (nodes.contains ·) && s1.gelV11))
   | "c03.envelope" =>
     match fldD ob "t4" Json.null with
     | Json.null => pure (jBool true)
@@ -466,7 +572,8 @@ def handleMon (j : Json) : R Json := do
     | some qo =>
       let hits ← Driver.HT2.fldHits ob "hits"
       let cfg := t2Cfg r.w r.c orc qo
-      let eps := withCos r.w.eps qo.cos
+      -- C11's model on the REAL index of this turn: the initial episodes and the written ones as the index holds them
+      let eps := withCos (r.w.eps ++ orc.memEps) qo.cos
       let kUsed ← fldNat ob "kUsed"
       let res ← strL ob "residual"
       pure (jBool (Clem.T2.monCount cfg hits && Clem.T2.monScope cfg hits && Clem.T2.monThreshold cfg hits &&
